@@ -22,8 +22,8 @@ ASSUMPTIONS = [
     'lifecycle hooks do not raise (C03 covers those)',
 ]
 BUDGET = {
-    'quick': {'enum': ['k1', 'k2', 'self2', 'listener', 'wc1', 'wc2', 'reload', 'tasks'], 'hyp': 6000, 'shards': 8},
-    'thorough': {'enum': ['k1', 'k2', 'k3', 'k4w', 'self3', 'listener', 'listener2', 'wc1', 'wc2', 'reload', 'tasks'], 'hyp': 200000, 'shards': 16},
+    'quick': {'enum': ['k1', 'k2', 'self2', 'listener', 'wc1', 'wc2', 'reload', 'tasks', 'interruptible'], 'hyp': 6000, 'shards': 8},
+    'thorough': {'enum': ['k1', 'k2', 'k3', 'k4w', 'self3', 'listener', 'listener2', 'wc1', 'wc2', 'reload', 'tasks', 'interruptible'], 'hyp': 200000, 'shards': 16},
 }
 
 ALPHABET = [['pause', 'p'], ['play'], ['kill', 'kt'], ['resume', 1], ['cancel']]
@@ -50,6 +50,20 @@ def enumerate_cases(tier, scope):
                     yield {'program': cat[name], 'schedule': pre + [['reload']] + sched, 'tag': f'reload:{name}'}
                 for sched in gen.schedules(ALPHABET, 2, 1):
                     yield {'program': cat[name], 'schedule': pre + [['reload']] + sched, 'tag': f'reload:{name}'}
+    elif scope == 'interruptible':
+        # an application-defined RUNNING state whose interrupt() reaches into the running step (installed through
+        # get_state_classes()): the kill interruption then travels out of the step function itself
+        progs = {
+            'gated': dict(cat['gated'], interruptible_running=True),
+            'gate2': {'steps': [gen.S([['gate', 'g1'], ['out', 'x', 1], ['gate', 'g2']], ['continue', 1, [], {}], True), gen.S([['gate', 'g1']], ['value', 2], True)], 'interruptible_running': True},
+        }
+        alpha = [['kill', 'kt'], ['cancel'], ['pause', 'p'], ['play']]
+        for name, prog in progs.items():
+            for k in (1, 2):
+                for sched in gen.schedules(alpha, k, 2):
+                    if not any(ev[0] in ('kill', 'cancel') for ev in sched) or any(ev[0] == 'pause' for ev in sched[:1]):
+                        continue
+                    yield {'program': prog, 'schedule': [['tick', 1]] + sched, 'tag': f'interruptible:{name}'}
     elif scope == 'tasks':
         # the caller cancels the task that steps the process (a timeout on step_until_terminated()) and may step it
         # again later: kills before, in between and after must still work
